@@ -350,6 +350,11 @@ class Check:
         self.known = []
         self._distinct = set()
         self.replay_n = 0
+        rd = os.path.join(VERIF, "replays")
+        if os.path.isdir(rd):
+            for f in os.listdir(rd):
+                if f.startswith("%s-%d-" % (pid, seed)):
+                    os.unlink(os.path.join(rd, f))
 
     # -- coverage accounting
     def count_case(self, case_text, nontrivial=True):
